@@ -242,7 +242,7 @@ def check_inline_em_alignment(run, A):
     g = A.graphs.get(fn)
     calls = [e.term for e in g.events if e.kind == 'call' and call_parts(e.term)[0] == 'method:apply_mapping']
     maps = [e.term for e in g.events if e.kind == 'call' and call_parts(e.term)[0] == 'method:calculate_mapping']
-    if len(calls) < 2 or len(maps) < 1:
+    if len(calls) < 1 or len(maps) < 1:
         raise AnalysisError('apply_inline_permutation_alignment: apply_mapping / calculate_mapping calls not found')
     same = len(maps) == 1 and all(strip_views(call_arg(c, 2)) is maps[0] for c in calls)
     run.check(same, 'R-PERM', 'inline EM alignment: one mapping reaches affiliation and quadratic form', fn.loc(calls[0].node), '',
@@ -260,7 +260,28 @@ def check_inline_em_alignment(run, A):
             return value_preserving(sw, pname, depth + 1)
         if call_parts(t)[0] == 'method:apply_mapping':
             return value_preserving(call_arg(t, 1), pname, depth + 1)
+        if t.op == 'sub' and _gather_by_mapping(t.args[1]):
+            # x[arange(F)[:, None], mapping.T] on the (F, K, T) layout: out[f, k] = x[f, mapping[k, f]], the same gather as apply_mapping
+            return value_preserving(t.args[0], pname, depth + 1)
         return False
+
+    def _gather_by_mapping(idx):
+        idx = strip_views(idx)
+        if idx.op != 'tuple' or len(idx.args[0]) != 2:
+            return False
+        a, b = strip_views(idx.args[0][0]), strip_views(idx.args[0][1])
+        ins = newaxis_insertions(a)
+        ok_a = ins is not None and ins[1] in ([1], [-1]) and is_call_to(strip_views(ins[0]), 'numpy.arange')
+        ok_b = (b.op == 'attr' and b.args[1] == 'T' and strip_views(b.args[0]) is maps[0]) or \
+            (is_call_to(b, 'numpy.transpose', 'numpy.swapaxes') and strip_views(call_arg(b, 0)) is maps[0])
+        return ok_a and ok_b
+    # a store INDEXED by the mapping is a scatter: out[f, mapping[k, f]] = x[f, k] applies the inverse permutation
+    for e in g.events:
+        if e.kind == 'store' and any(x is maps[0] for x in walk_terms(e.term.args[1])):
+            run.violation('R-PERM', 'inline EM alignment: the mapping is used as a gather index only', fn.loc(e.node),
+                          'a value is stored AT the positions given by the mapping (scatter): that applies the inverse of the permutation the aligner computed, '
+                          'which differs from the gather applied to the posterior whenever a per-frequency permutation is not its own inverse (K >= 3)',
+                          construct=f'R-PERM::{q}::scatter-by-mapping')
     rets = ret_alts(g)
     ok_a = ok_q = True
     for r in rets:
